@@ -262,7 +262,11 @@ impl BulkheadConfigBuilder {
     /// Builds the configuration and returns a BulkheadLayer.
     pub fn build(self) -> crate::layer::BulkheadLayer {
         let config = BulkheadConfig {
-            max_concurrent_calls: self.max_concurrent_calls,
+            // tokio's semaphore cannot hold more than MAX_PERMITS permits and panics when
+            // asked to: a larger limit ("unlimited") means that many
+            max_concurrent_calls: self
+                .max_concurrent_calls
+                .min(tokio::sync::Semaphore::MAX_PERMITS),
             max_wait_duration: self.max_wait_duration,
             name: self.name,
             event_listeners: self.event_listeners,
